@@ -249,4 +249,19 @@ theorem c13_same_leaves_every_history_lines (a b : Src) (σa σb : Store) (hna :
   exact lname_same_leaves _ _ (Src.strip_nc a) (Src.strip_nc b) ia ib (Src.strip_wf a wa) (Src.strip_wf b wb)
     (Src.strip_posHyp false a pa) (Src.strip_posHyp false b pb) h L
 
+/-! ## the boundary: a ReplaceSource with only empty replacements refines columns (known finding K2) -/
+
+/-- `ReplaceSource(OriginalSource("ab", "f"))` with the empty string inserted at 1 -/
+def k2Witness : Src := .replace (.orig [97, 98] [102]) [⟨1, 1, [], none, 1⟩]
+
+/-- **"a ReplaceSource with only empty replacements behaves exactly like the wrapped source" fails at column granularity** (known
+finding K2; replayed against the crate on every run: `corpus/C13/k2-wrappers.case`): the text is the wrapped text, but the chunk is split at
+the insertion point and — the recorded content spelling the chunk — the second piece reports the original column advanced to the
+split: byte 1 resolves to column 1 instead of the wrapped source's column 0 (same file, line and name). -/
+theorem c13_k2_witness :
+    k2Witness.src = (Src.orig [97, 98] [102]).src
+    ∧ NA (k2Witness.stream ⟨true, false⟩ []).1.evs = [some ⟨some [102], 1, 0, none⟩, some ⟨some [102], 1, 1, none⟩]
+    ∧ NA ((Src.orig [97, 98] [102]).stream ⟨true, false⟩ []).1.evs = [some ⟨some [102], 1, 0, none⟩, some ⟨some [102], 1, 0, none⟩] := by
+  refine ⟨by decide +kernel, by decide +kernel, by decide +kernel⟩
+
 end Rs
